@@ -112,3 +112,1124 @@ fn c11_twin_new_lifetime() {
     kani::cover!(r.refresh_due(now) && !r.is_expired(now), "refresh_due_not_expired");
     core::mem::forget(r);
 }
+
+// ---------------------------------------------------------------------------
+// C01 - decoding any datagram is safe, terminating and bounded
+// ---------------------------------------------------------------------------
+
+pub(crate) fn mk_incoming(data: Vec<u8>, offset: usize, flags: u16) -> DnsIncoming {
+    // An arbitrary parser state: any buffer, any cursor.  One reader call from here
+    // covers every position a longer packet could put the cursor in.
+    DnsIncoming {
+        offset,
+        data,
+        questions: Vec::new(),
+        answers: Vec::new(),
+        authorities: Vec::new(),
+        additional: Vec::new(),
+        id: 0,
+        flags,
+        num_questions: 0,
+        num_answers: 0,
+        num_authorities: 0,
+        num_additionals: 0,
+        interface_id: InterfaceId::default(),
+    }
+}
+
+/// Counting twin of `u16_from_be_slice` (only used by the read_name harnesses, where it marks one
+/// pointer-branch iteration; the RR harnesses run the real function).
+fn u16_from_be_slice_ticking(bytes: &[u8]) -> u16 {
+    crate::verif_support::tick();
+    ((bytes[0] as u16) << 8) | bytes[1] as u16
+}
+
+macro_rules! c01_read_name {
+    ($name:ident, $n:expr, $u:literal) => {
+        #[kani::proof]
+        #[kani::unwind($u)]
+        #[kani::stub(alloc::fmt::format, crate::verif_support::fmt_format)]
+        #[kani::stub(core::str::from_utf8, crate::verif_support::utf8_model)]
+        #[kani::stub(super::u16_from_be_slice, u16_from_be_slice_ticking)]
+        fn $name() {
+            const N: usize = $n;
+            let bytes: [u8; N] = kani::any();
+            let off: usize = kani::any();
+            kani::assume(off <= N);
+            // every loop iteration of read_name passes through from_utf8 (label) or
+            // u16_from_be_slice (pointer); both tick.  Budget N+1: shown sufficient for the code
+            // under test by this very check (a run that needs more fails the ghost assertion and
+            // goes to native replay, where only a real hang counts).
+            crate::verif_support::set_step_budget(N as u32 + 1);
+            let mut inc = mk_incoming(bytes.to_vec(), off, 0);
+            let r = inc.read_name();
+            match &r {
+                Ok(name) => {
+                    assert!(inc.offset <= N, "cursor left the datagram");
+                    assert!(inc.offset > off, "cursor did not advance");
+                    assert!(name.len() <= N, "name longer than the datagram");
+                    kani::cover!(name.len() == 0, "ok_root");
+                    kani::cover!(inc.offset == off + 2 && bytes[off] >= 0xC0, "ok_pointer_followed");
+                    kani::cover!(name.len() == N - 1, "ok_longest_plain");
+                }
+                Err(_) => {
+                    kani::cover!(true, "err");
+                }
+            }
+            core::mem::forget(r);
+            core::mem::forget(inc);
+        }
+    };
+}
+
+// @harness c01_read_name_4
+// @property C01 C15
+// @tier quick
+// @functions DnsIncoming::read_name
+// @bound buffer of exactly 4 symbolic bytes (2^32 contents), start offset symbolic in 0..=4: an arbitrary parser state
+// @unwind 7 (ghost budget N+1 = 5 iterations fires first)
+// @termination read_name
+// @oracle Result, never panic; on Ok: start < cursor <= N and name.len() <= N
+// @outside buffers longer than 4 bytes in this harness (5, 6, 8 in thorough); everything after the name
+// @stubs fmt_format, utf8_model(+tick), u16_from_be_slice(+tick)
+// @covers ok_root, ok_pointer_followed, ok_longest_plain, err
+// @lift name
+c01_read_name!(c01_read_name_4, 4, 7);
+
+// @harness c01_read_name_5
+// @property C01 C15
+// @tier thorough
+// @functions DnsIncoming::read_name
+// @bound buffer of exactly 5 symbolic bytes (2^40 contents), start offset symbolic in 0..=5: an arbitrary parser state
+// @unwind 8 (ghost budget N+1 = 6 iterations fires first: each iteration consumes a label of >=1 byte or follows a pointer to a strictly smaller target)
+// @termination read_name
+// @oracle Result, never panic; on Ok: start < cursor <= N and name.len() <= N
+// @outside buffers longer than 5 bytes in this harness (8 in thorough); everything after the name
+// @stubs fmt_format, utf8_model(+tick), u16_from_be_slice(+tick)
+// @covers ok_root, ok_pointer_followed, ok_longest_plain, err
+// @lift name
+c01_read_name!(c01_read_name_5, 5, 8);
+
+// @harness c01_read_name_8
+// @property C01 C15
+// @tier thorough
+// @functions DnsIncoming::read_name
+// @bound buffer of exactly 8 symbolic bytes (2^64 contents), start offset symbolic in 0..=8
+// @unwind 11 (ghost budget N+1 = 9 fires first)
+// @termination read_name
+// @oracle Result, never panic; on Ok: start < cursor <= N and name.len() <= N
+// @outside buffers longer than 8 bytes
+// @stubs fmt_format, utf8_model(+tick), u16_from_be_slice(+tick)
+// @covers ok_root, ok_pointer_followed, ok_longest_plain, err
+// @lift name
+// @timeout 2400
+c01_read_name!(c01_read_name_8, 8, 11);
+
+// ---------------------------------------------------------------------------
+// C10 (continued) - the other record types, cross-type pairs, add_answer
+// ---------------------------------------------------------------------------
+
+fn any_ip(v6: bool) -> IpAddr {
+    if v6 {
+        IpAddr::V6(Ipv6Addr::from(kani::any::<u128>()))
+    } else {
+        IpAddr::V4(Ipv4Addr::from(kani::any::<u32>()))
+    }
+}
+
+fn any_small_vec() -> Vec<u8> {
+    // length 0..=2, contents symbolic
+    let n: u8 = kani::any();
+    kani::assume(n <= 2);
+    let mut v = Vec::with_capacity(2); // (an empty Vec's dangling pointer trips CBMC's allocation model)
+    if n > 0 {
+        v.push(kani::any());
+    }
+    if n > 1 {
+        v.push(kani::any());
+    }
+    v
+}
+
+fn vec_eq(a: &[u8], b: &[u8]) -> bool {
+    if a.len() != b.len() {
+        return false;
+    }
+    let mut i = 0;
+    while i < a.len() {
+        if a[i] != b[i] {
+            return false;
+        }
+        i += 1;
+    }
+    true
+}
+
+// @harness c10_suppressed_addr
+// @property C10
+// @tier quick
+// @functions DnsRecordExt::suppressed_by_answer, DnsAddress::matches
+// @bound all TTL pairs (u32 x u32), all classes, A and AAAA with every address (u32 / u128) on both sides; owner from a 2-name list; both records carry the same interface id
+// @oracle same := owner, type, class(without flush bit), address equal
+// @outside records learned on different interfaces
+// @stubs clock(overlay)
+// @covers suppressed, same_but_not_suppressed, different
+#[kani::proof]
+#[kani::unwind(10)]
+fn c10_suppressed_addr() {
+    let (ia, ib) = (any_name_idx(), any_name_idx());
+    let (va, vb): (bool, bool) = (kani::any(), kani::any());
+    let (ipa, ipb) = (any_ip(va), any_ip(vb));
+    set_clock(any_time());
+    let a = DnsAddress::new(NAMES[ia], ip_address_rr_type(&ipa), kani::any(), kani::any(), ipa, InterfaceId::default());
+    let b = DnsAddress::new(NAMES[ib], ip_address_rr_type(&ipb), kani::any(), kani::any(), ipb, InterfaceId::default());
+    let same = entry_same(&a.record, &b.record, ia, ib) && ipa == ipb;
+    check_suppression(&a, &b, same);
+    core::mem::forget(a);
+    core::mem::forget(b);
+}
+
+// @harness c10_suppressed_ptr
+// @property C10
+// @tier quick
+// @functions DnsRecordExt::suppressed_by_answer, DnsPointer::matches
+// @bound all TTL pairs, all classes; owner and alias from a 2-name list; type PTR or CNAME
+// @oracle same := owner, type, class(without flush bit), alias equal
+// @stubs clock(overlay)
+// @covers suppressed, same_but_not_suppressed, different
+#[kani::proof]
+#[kani::unwind(10)]
+fn c10_suppressed_ptr() {
+    let (ia, ib, aa, ab) = (any_name_idx(), any_name_idx(), any_name_idx(), any_name_idx());
+    let ta = if kani::any() { RRType::PTR } else { RRType::CNAME };
+    let tb = if kani::any() { RRType::PTR } else { RRType::CNAME };
+    set_clock(any_time());
+    let a = DnsPointer::new(NAMES[ia], ta, kani::any(), kani::any(), NAMES[aa].to_string());
+    let b = DnsPointer::new(NAMES[ib], tb, kani::any(), kani::any(), NAMES[ab].to_string());
+    let same = entry_same(&a.record, &b.record, ia, ib) && aa == ab;
+    check_suppression(&a, &b, same);
+    core::mem::forget(a);
+    core::mem::forget(b);
+}
+
+// @harness c10_suppressed_txt
+// @property C10
+// @tier quick
+// @functions DnsRecordExt::suppressed_by_answer, DnsTxt::matches
+// @bound all TTL pairs, all classes; owner from a 2-name list; TXT rdata of 0..=2 symbolic bytes on each side
+// @oracle same := owner, class(without flush bit), rdata bytes equal
+// @outside TXT rdata longer than 2 bytes
+// @stubs clock(overlay)
+// @covers suppressed, same_but_not_suppressed, different
+#[kani::proof]
+#[kani::unwind(10)]
+fn c10_suppressed_txt() {
+    let (ia, ib) = (any_name_idx(), any_name_idx());
+    let (ta, tb) = (any_small_vec(), any_small_vec());
+    let rd_same = vec_eq(&ta, &tb);
+    set_clock(any_time());
+    let a = DnsTxt::new(NAMES[ia], kani::any(), kani::any(), ta);
+    let b = DnsTxt::new(NAMES[ib], kani::any(), kani::any(), tb);
+    let same = entry_same(&a.record, &b.record, ia, ib) && rd_same;
+    check_suppression(&a, &b, same);
+    core::mem::forget(a);
+    core::mem::forget(b);
+}
+
+// @harness c10_suppressed_cross
+// @property C10
+// @tier quick
+// @functions DnsRecordExt::suppressed_by_answer, DnsSrv::matches, DnsTxt::matches, DnsPointer::matches, DnsAddress::matches
+// @bound every ordered pair of distinct record kinds among {SRV, TXT, PTR, A}; all TTLs and classes; same owner name
+// @oracle a record is never suppressed by a record of another kind
+// @stubs clock(overlay)
+// @covers pair_srv_txt, pair_ptr_a
+#[kani::proof]
+#[kani::unwind(10)]
+fn c10_suppressed_cross() {
+    set_clock(any_time());
+    let mk = |k: u8| -> DnsRecordBox {
+        match k {
+            0 => DnsSrv::new("a.local.", kani::any(), kani::any(), kani::any(), kani::any(), kani::any(), "b.local.".to_string()).boxed(),
+            1 => DnsTxt::new("a.local.", kani::any(), kani::any(), any_small_vec()).boxed(),
+            2 => DnsPointer::new("a.local.", RRType::PTR, kani::any(), kani::any(), "b.local.".to_string()).boxed(),
+            _ => DnsAddress::new("a.local.", RRType::A, kani::any(), kani::any(), any_ip(false), InterfaceId::default()).boxed(),
+        }
+    };
+    let (ka, kb): (u8, u8) = (kani::any(), kani::any());
+    kani::assume(ka < 4 && kb < 4 && ka != kb);
+    let a = mk(ka);
+    let b = mk(kb);
+    assert!(!a.suppressed_by_answer(b.as_ref()), "suppressed by a record of another kind");
+    kani::cover!(ka == 0 && kb == 1, "pair_srv_txt");
+    kani::cover!(ka == 2 && kb == 3, "pair_ptr_a");
+    core::mem::forget(a);
+    core::mem::forget(b);
+}
+
+// @harness c10_add_answer
+// @property C10
+// @tier quick
+// @functions DnsOutgoing::add_answer, DnsRecordExt::suppressed_by, DnsOutgoing::add_answer_at_time
+// @bound incoming query with 0..=2 known answers (SRV, symbolic TTL and port, fixed owner/class); one candidate SRV answer with symbolic TTL and port
+// @oracle added <=> not suppressed by any listed answer (per-answer predicate decided by the c10_suppressed_* harnesses); known_answer_count counts exactly the suppressed ones
+// @stubs clock(overlay)
+// @covers added, suppressed_by_first, suppressed_by_second
+#[kani::proof]
+#[kani::unwind(10)]
+fn c10_add_answer() {
+    set_clock(any_time());
+    let mk = || DnsSrv::new("a.local.", CLASS_IN, kani::any(), 0, 0, kani::any(), "b.local.".to_string());
+    let mine = mk();
+    let n: u8 = kani::any();
+    kani::assume(n <= 2);
+    let mut msg = mk_incoming(Vec::new(), 0, 0);
+    let k1 = mk();
+    let k2 = mk();
+    let s1 = n >= 1 && mine.suppressed_by_answer(&k1);
+    let s2 = n >= 2 && mine.suppressed_by_answer(&k2);
+    if n >= 1 {
+        msg.answers.push(k1.boxed());
+    }
+    if n >= 2 {
+        msg.answers.push(k2.boxed());
+    }
+    let mut out = DnsOutgoing::new(FLAGS_QR_RESPONSE | FLAGS_AA);
+    let added = out.add_answer(&msg, mine);
+    assert!(added == !(s1 || s2));
+    assert!(out.answers_count() == if added { 1 } else { 0 });
+    assert!(out.known_answer_count() == if added { 0 } else { 1 });
+    kani::cover!(added, "added");
+    kani::cover!(s1, "suppressed_by_first");
+    kani::cover!(!s1 && s2, "suppressed_by_second");
+    core::mem::forget(out);
+    core::mem::forget(msg);
+}
+
+// ---------------------------------------------------------------------------
+// C08 - simultaneous-probe comparison: both sides reach opposite verdicts
+// ---------------------------------------------------------------------------
+
+fn check_antisym(a: &dyn DnsRecordExt, b: &dyn DnsRecordExt, rdata_same: bool) {
+    let ab = a.compare(b);
+    let ba = b.compare(a);
+    assert!(ab == ba.reverse(), "compare is not antisymmetric");
+    let all_same = a.get_class() == b.get_class() && a.get_type() == b.get_type() && rdata_same;
+    assert!((ab == cmp::Ordering::Equal) == all_same, "Equal must mean same class, type and rdata");
+    if a.get_class() != b.get_class() {
+        assert!(ab == a.get_class().cmp(&b.get_class()), "class decides first");
+    } else if a.get_type() != b.get_type() {
+        assert!(ab == (a.get_type() as u16).cmp(&(b.get_type() as u16)), "then the type number");
+    }
+    kani::cover!(ab == cmp::Ordering::Less, "less");
+    kani::cover!(ab == cmp::Ordering::Equal, "equal");
+    kani::cover!(ab == cmp::Ordering::Greater, "greater");
+}
+
+// @harness c08_compare_srv
+// @property C08
+// @tier quick
+// @functions DnsRecordExt::compare, DnsSrv::compare_rdata
+// @bound all classes, priorities, weights, ports (u16 each, both sides); targets from a 2-name list
+// @oracle compare(a,b) == compare(b,a).reverse(); Equal <=> class, type, rdata equal; class then type decide first
+// @stubs clock(overlay)
+// @covers less, equal, greater
+#[kani::proof]
+#[kani::unwind(10)]
+fn c08_compare_srv() {
+    set_clock(any_time());
+    let (ha, hb) = (any_name_idx(), any_name_idx());
+    let a = DnsSrv::new("a.local.", kani::any(), 120, kani::any(), kani::any(), kani::any(), NAMES[ha].to_string());
+    let b = DnsSrv::new("a.local.", kani::any(), 120, kani::any(), kani::any(), kani::any(), NAMES[hb].to_string());
+    let same = a.priority == b.priority && a.weight == b.weight && a.port == b.port && ha == hb;
+    // byte-wise rdata order: priority, weight, port big-endian, then target
+    if a.get_class() == b.get_class() && a.priority != b.priority {
+        assert!(a.compare(&b) == a.priority.cmp(&b.priority));
+    }
+    check_antisym(&a, &b, same);
+    core::mem::forget(a);
+    core::mem::forget(b);
+}
+
+// @harness c08_compare_addr
+// @property C08
+// @tier quick
+// @functions DnsRecordExt::compare, DnsAddress::compare_rdata
+// @bound all classes; A and AAAA with every address on both sides
+// @oracle antisymmetry; Equal <=> class, type, address equal; class then type decide first
+// @stubs clock(overlay)
+// @unwind 18 (memcmp over 16 address bytes)
+// @covers less, equal, greater
+#[kani::proof]
+#[kani::unwind(18)]
+fn c08_compare_addr() {
+    set_clock(any_time());
+    let (va, vb): (bool, bool) = (kani::any(), kani::any());
+    let (ipa, ipb) = (any_ip(va), any_ip(vb));
+    let a = DnsAddress::new("a.local.", ip_address_rr_type(&ipa), kani::any(), 120, ipa, InterfaceId::default());
+    let b = DnsAddress::new("a.local.", ip_address_rr_type(&ipb), kani::any(), 120, ipb, InterfaceId::default());
+    check_antisym(&a, &b, ipa == ipb);
+    core::mem::forget(a);
+    core::mem::forget(b);
+}
+
+// @harness c08_compare_txt
+// @property C08
+// @tier quick
+// @functions DnsRecordExt::compare, DnsTxt::compare_rdata
+// @bound all classes; TXT rdata of 0..=2 symbolic bytes on each side
+// @oracle antisymmetry; Equal <=> class and rdata bytes equal
+// @outside rdata longer than 2 bytes
+// @stubs clock(overlay)
+// @covers less, equal, greater
+#[kani::proof]
+#[kani::unwind(10)]
+fn c08_compare_txt() {
+    set_clock(any_time());
+    let (ta, tb) = (any_small_vec(), any_small_vec());
+    let same = vec_eq(&ta, &tb);
+    let a = DnsTxt::new("a.local.", kani::any(), 4500, ta);
+    let b = DnsTxt::new("a.local.", kani::any(), 4500, tb);
+    check_antisym(&a, &b, same);
+    core::mem::forget(a);
+    core::mem::forget(b);
+}
+
+// @harness c08_compare_cross
+// @property C08
+// @tier quick
+// @functions DnsRecordExt::compare, DnsSrv::compare_rdata, DnsTxt::compare_rdata, DnsAddress::compare_rdata, DnsPointer::compare_rdata
+// @bound every ordered pair of record kinds among {SRV, TXT, PTR, A, AAAA}; all classes; symbolic rdata
+// @oracle antisymmetry also across kinds; class, then type number decide
+// @stubs clock(overlay)
+// @covers less, greater
+#[kani::proof]
+#[kani::unwind(10)]
+fn c08_compare_cross() {
+    set_clock(any_time());
+    let mk = |k: u8| -> DnsRecordBox {
+        match k {
+            0 => DnsSrv::new("a.local.", kani::any(), 120, kani::any(), kani::any(), kani::any(), "b.local.".to_string()).boxed(),
+            1 => DnsTxt::new("a.local.", kani::any(), 4500, any_small_vec()).boxed(),
+            2 => DnsPointer::new("a.local.", RRType::PTR, kani::any(), 4500, "b.local.".to_string()).boxed(),
+            3 => DnsAddress::new("a.local.", RRType::A, kani::any(), 120, any_ip(false), InterfaceId::default()).boxed(),
+            _ => DnsAddress::new("a.local.", RRType::AAAA, kani::any(), 120, any_ip(true), InterfaceId::default()).boxed(),
+        }
+    };
+    let (ka, kb): (u8, u8) = (kani::any(), kani::any());
+    kani::assume(ka < 5 && kb < 5 && ka != kb);
+    let a = mk(ka);
+    let b = mk(kb);
+    let ab = a.compare(b.as_ref());
+    let ba = b.compare(a.as_ref());
+    assert!(ab == ba.reverse(), "compare is not antisymmetric across kinds");
+    assert!(ab != cmp::Ordering::Equal, "records of different type can never tie");
+    if a.get_class() != b.get_class() {
+        assert!(ab == a.get_class().cmp(&b.get_class()));
+    } else {
+        assert!(ab == (a.get_type() as u16).cmp(&(b.get_type() as u16)));
+    }
+    kani::cover!(ab == cmp::Ordering::Less, "less");
+    kani::cover!(ab == cmp::Ordering::Greater, "greater");
+    core::mem::forget(a);
+    core::mem::forget(b);
+}
+
+// ---------------------------------------------------------------------------
+// C01 / C11 - one resource record through the public decoder entry point
+// ---------------------------------------------------------------------------
+
+/// A whole datagram: header (ANCOUNT = 1, symbolic flags) followed by `body`.
+fn rr_datagram(flags: u16, body: &[u8]) -> Vec<u8> {
+    let mut d = Vec::with_capacity(12 + body.len());
+    d.extend_from_slice(&[0, 0, (flags >> 8) as u8, flags as u8, 0, 0, 0, 1, 0, 0, 0, 0]);
+    d.extend_from_slice(body);
+    d
+}
+
+/// Decodes header+body with the owner name forced to the root (1 byte) and TYPE forced to `ty`
+/// (written as *concrete* bytes so that symbolic execution does not fork on them).
+/// Checks the type-independent part of C01 and returns the message if decoding succeeded.
+fn decode_one_rr(body: &mut [u8], ty: u16, flags: u16, err_possible: bool) -> Option<(DnsIncoming, u16, u32, usize, bool)> {
+    let m = body.len();
+    body[0] = 0;
+    body[1] = (ty >> 8) as u8;
+    body[2] = ty as u8;
+    let class = vs::be16(body, 3);
+    let ttl_wire = vs::be32(body, 5);
+    let rdlen = vs::be16(body, 9) as usize;
+    set_clock(any_time());
+    crate::verif_support::set_step_budget(m as u32 + 4);
+    let r = DnsIncoming::new(rr_datagram(flags, body), InterfaceId::default());
+    match r {
+        Ok(inc) => {
+            let is_resp = flags & 0x8000 != 0;
+            assert!(inc.questions.is_empty() && inc.authorities.is_empty() && inc.additional.is_empty());
+            assert!(inc.answers.len() <= 1, "more records than the header announced");
+            assert!(inc.offset == 12 + 11 + rdlen, "cursor is not at the end of RDATA");
+            assert!(inc.offset <= 12 + m, "cursor left the datagram");
+            if let Some(rec) = inc.answers.first() {
+                let r = rec.get_record();
+                // C11: TTL 0 in a response means one second
+                let want = if ttl_wire == 0 && is_resp { 1 } else { ttl_wire };
+                assert!(r.ttl == want, "TTL not taken from the wire / 0 -> 1 rule");
+                assert!(r.entry.class == class & 0x7FFF && r.entry.cache_flush == (class & 0x8000 != 0));
+                assert!(r.entry.ty as u16 == ty);
+                assert!(r.entry.name.is_empty(), "owner of a root-named record must be empty");
+            }
+            Some((inc, class, ttl_wire, rdlen, is_resp))
+        }
+        Err(e) => {
+            if err_possible {
+                kani::cover!(true, "err");
+            }
+            core::mem::forget(e);
+            None
+        }
+    }
+}
+
+macro_rules! c01_rr_a {
+    ($name:ident, $flags:expr) => {
+        #[kani::proof]
+        #[kani::unwind(2)]
+        #[kani::stub(alloc::fmt::format, crate::verif_support::fmt_format)]
+        #[kani::stub(core::str::from_utf8, crate::verif_support::utf8_model)]
+        fn $name() {
+            let mut body: [u8; 17] = kani::any();
+            if let Some((inc, _c, ttl_wire, rdlen, is_resp)) = decode_one_rr(&mut body, 1, $flags, true) {
+                assert!(inc.answers.len() == 1);
+                assert!(rdlen == 4, "A record accepted with RDLENGTH != 4");
+                let a = inc.answers[0].any().downcast_ref::<DnsAddress>().unwrap();
+                match a.address {
+                    IpAddr::V4(v4) => assert!(u32::from(v4) == vs::be32(&body, 11), "address not from RDATA"),
+                    _ => assert!(false, "A decoded to a non-IPv4 address"),
+                }
+                kani::cover!(true, "ok_record");
+                kani::cover!(ttl_wire == 0, "ttl0");
+                kani::cover!(ttl_wire == u32::MAX, "ttl_max");
+                let _ = is_resp;
+                core::mem::forget(inc);
+            }
+        }
+    };
+}
+
+// @harness c01_rr_a_resp
+// @property C01 C11 C15 C05
+// @tier thorough
+// @functions DnsIncoming::new, read_header, read_questions, read_rr_records, read_name, read_ipv4, DnsAddress::new, DnsRecord::new
+// @bound datagram = 12-byte header (flags 0x8400 = response, ANCOUNT 1) + 17 bytes; owner = root name, TYPE = A (concrete); CLASS, TTL, RDLENGTH, RDATA and 2 trailing bytes symbolic
+// @oracle never panics; Ok => exactly one record, cursor == 23 + RDLENGTH <= len, address == the 4 RDATA bytes, RDLENGTH == 4, TTL/class/flush from their RFC 1035 positions, TTL 0 is stored as 1 (goodbye)
+// @outside other owner names (c01_read_name_*), more than one record, other sections, other header flag bits
+// @stubs fmt_format, utf8_model, clock(overlay)
+// @covers ok_record, ttl0, ttl_max, err
+c01_rr_a!(c01_rr_a_resp, 0x8400);
+
+// @harness c01_rr_a_query
+// @property C01 C11 C15
+// @tier thorough
+// @functions DnsIncoming::new, read_rr_records, read_ipv4, DnsAddress::new
+// @bound as c01_rr_a_resp with header flags 0x0000 (query: known-answer section)
+// @oracle as c01_rr_a_resp, but TTL 0 stays 0 in a query
+// @stubs fmt_format, utf8_model, clock(overlay)
+// @covers ok_record, ttl0, ttl_max, err
+c01_rr_a!(c01_rr_a_query, 0x0000);
+
+// @harness c01_rr_aaaa
+// @property C01 C15
+// @tier thorough
+// @functions DnsIncoming::new, read_rr_records, read_ipv6, DnsAddress::new
+// @bound header (response, ANCOUNT 1) + 28 bytes; owner = root, TYPE = AAAA (concrete); CLASS, TTL, RDLENGTH, 16 RDATA bytes and 1 trailing byte symbolic
+// @oracle never panics; Ok => one record, RDLENGTH == 16, address == the 16 RDATA bytes
+// @unwind 2 (no data-dependent loop on this path; the only loops are `for _ in 0..1` and drop loops over <= 1 element)
+// @stubs fmt_format, utf8_model, clock(overlay)
+// @covers ok_record, err
+#[kani::proof]
+#[kani::unwind(2)]
+#[kani::stub(alloc::fmt::format, crate::verif_support::fmt_format)]
+#[kani::stub(core::str::from_utf8, crate::verif_support::utf8_model)]
+fn c01_rr_aaaa() {
+    let mut body: [u8; 28] = kani::any();
+    if let Some((inc, _c, _t, rdlen, _)) = decode_one_rr(&mut body, 28, 0x8400, true) {
+        assert!(inc.answers.len() == 1);
+        assert!(rdlen == 16, "AAAA record accepted with RDLENGTH != 16");
+        let a = inc.answers[0].any().downcast_ref::<DnsAddress>().unwrap();
+        let o = [
+            body[11], body[12], body[13], body[14], body[15], body[16], body[17], body[18], body[19], body[20], body[21],
+            body[22], body[23], body[24], body[25], body[26],
+        ];
+        match a.address {
+            IpAddr::V6(v6) => assert!(u128::from(v6) == u128::from_be_bytes(o)),
+            _ => assert!(false, "AAAA decoded to a non-IPv6 address"),
+        }
+        kani::cover!(true, "ok_record");
+        core::mem::forget(inc);
+    }
+}
+
+// @harness c01_rr_txt
+// @property C01 C15
+// @tier thorough
+// @functions DnsIncoming::new, read_rr_records, read_vec, DnsTxt::new
+// @bound header + 16 bytes; owner = root, TYPE = TXT (concrete); RDLENGTH and up to 5 RDATA bytes symbolic
+// @oracle never panics; Ok => one record whose text is exactly the RDLENGTH bytes after the RR header
+// @stubs fmt_format, utf8_model, clock(overlay)
+// @covers ok_empty, ok_full, err
+#[kani::proof]
+#[kani::unwind(7)]
+#[kani::stub(alloc::fmt::format, crate::verif_support::fmt_format)]
+#[kani::stub(core::str::from_utf8, crate::verif_support::utf8_model)]
+fn c01_rr_txt() {
+    let mut body: [u8; 16] = kani::any();
+    if let Some((inc, _c, _t, rdlen, _)) = decode_one_rr(&mut body, 16, 0x8400, true) {
+        assert!(inc.answers.len() == 1);
+        let t = inc.answers[0].any().downcast_ref::<DnsTxt>().unwrap();
+        assert!(t.text.len() == rdlen);
+        let mut i = 0;
+        while i < 5 {
+            if i < rdlen {
+                assert!(t.text[i] == body[11 + i], "TXT byte not from its datagram position");
+            }
+            i += 1;
+        }
+        kani::cover!(rdlen == 0, "ok_empty");
+        kani::cover!(rdlen == 5, "ok_full");
+        core::mem::forget(inc);
+    }
+}
+
+// @harness c01_rr_srv
+// @property C01 C15
+// @tier thorough
+// @functions DnsIncoming::new, read_rr_records, read_u16, read_name, DnsSrv::new
+// @bound header + 19 bytes; owner = root, TYPE = SRV (concrete); CLASS/TTL/RDLENGTH, priority/weight/port and a 2-byte target (root or pointer) symbolic
+// @oracle never panics; Ok => one record, priority/weight/port from RDATA bytes 0..6, cursor == 23 + RDLENGTH
+// @stubs fmt_format, utf8_model, clock(overlay)
+// @covers ok_record, ok_target_pointer, err
+#[kani::proof]
+#[kani::unwind(4)]
+#[kani::stub(alloc::fmt::format, crate::verif_support::fmt_format)]
+#[kani::stub(core::str::from_utf8, crate::verif_support::utf8_model)]
+fn c01_rr_srv() {
+    let mut body: [u8; 19] = kani::any();
+    if let Some((inc, _c, _t, rdlen, _)) = decode_one_rr(&mut body, 33, 0x8400, true) {
+        assert!(inc.answers.len() == 1);
+        assert!(rdlen >= 7, "SRV shorter than 6 bytes + a name");
+        let s = inc.answers[0].any().downcast_ref::<DnsSrv>().unwrap();
+        assert!(s.priority == vs::be16(&body, 11) && s.weight == vs::be16(&body, 13) && s.port == vs::be16(&body, 15));
+        kani::cover!(true, "ok_record");
+        kani::cover!(body[17] >= 0xC0, "ok_target_pointer");
+        core::mem::forget(inc);
+    }
+}
+
+// @harness c01_rr_ptr
+// @property C01 C15
+// @tier thorough
+// @functions DnsIncoming::new, read_rr_records, read_name, DnsPointer::new
+// @bound header + 13 bytes; owner = root, TYPE = PTR (concrete); CLASS/TTL/RDLENGTH and a 2-byte target (root, pointer, or 1-byte label start) symbolic
+// @oracle never panics; Ok => one record, cursor == 23 + RDLENGTH (the target name fills RDATA exactly)
+// @stubs fmt_format, utf8_model, clock(overlay)
+// @covers ok_record, ok_target_pointer, err
+#[kani::proof]
+#[kani::unwind(4)]
+#[kani::stub(alloc::fmt::format, crate::verif_support::fmt_format)]
+#[kani::stub(core::str::from_utf8, crate::verif_support::utf8_model)]
+fn c01_rr_ptr() {
+    let mut body: [u8; 13] = kani::any();
+    if let Some((inc, _c, _t, rdlen, _)) = decode_one_rr(&mut body, 12, 0x8400, true) {
+        assert!(inc.answers.len() == 1);
+        assert!(rdlen >= 1);
+        kani::cover!(true, "ok_record");
+        kani::cover!(body[11] >= 0xC0, "ok_target_pointer");
+        core::mem::forget(inc);
+    }
+}
+
+// @harness c01_rr_hinfo
+// @property C01 C15
+// @tier thorough
+// @functions DnsIncoming::new, read_rr_records, read_char_string, read_string, DnsHostInfo::new
+// @bound header + 15 bytes; owner = root, TYPE = HINFO (concrete); RDLENGTH and up to 4 RDATA bytes symbolic
+// @oracle never panics; Ok => one record, cursor == 23 + RDLENGTH
+// @stubs fmt_format, utf8_model, clock(overlay)
+// @covers ok_record, err
+#[kani::proof]
+#[kani::unwind(6)]
+#[kani::stub(alloc::fmt::format, crate::verif_support::fmt_format)]
+#[kani::stub(core::str::from_utf8, crate::verif_support::utf8_model)]
+fn c01_rr_hinfo() {
+    let mut body: [u8; 15] = kani::any();
+    if let Some((inc, _c, _t, rdlen, _)) = decode_one_rr(&mut body, 13, 0x8400, true) {
+        assert!(inc.answers.len() == 1);
+        assert!(rdlen >= 2, "HINFO needs two length bytes");
+        kani::cover!(true, "ok_record");
+        core::mem::forget(inc);
+    }
+}
+
+macro_rules! c01_rr_at_end {
+    ($name:ident, $ty:expr) => {
+        #[kani::proof]
+        #[kani::unwind(3)]
+        #[kani::stub(alloc::fmt::format, crate::verif_support::fmt_format)]
+        #[kani::stub(core::str::from_utf8, crate::verif_support::utf8_model)]
+        fn $name() {
+            let mut body: [u8; 11] = kani::any();
+            if let Some((inc, _c, _t, rdlen, _)) = decode_one_rr(&mut body, $ty, 0x8400, true) {
+                // only a TXT with RDLENGTH 0 can be decoded from an RR header alone
+                assert!($ty == 16 && rdlen == 0);
+                core::mem::forget(inc);
+            }
+        }
+    };
+}
+
+// @harness c01_rr_end_hinfo
+// @property C01 C15
+// @tier quick
+// @functions DnsIncoming::new, read_rr_records, read_char_string
+// @bound header + exactly 11 bytes: an HINFO RR header is the end of the datagram (CLASS, TTL, RDLENGTH symbolic, incl. RDLENGTH 0)
+// @oracle never panics: an RR whose RDATA is missing is an error, not an index panic
+// @stubs fmt_format, utf8_model, clock(overlay)
+// @covers err
+c01_rr_at_end!(c01_rr_end_hinfo, 13);
+
+// @harness c01_rr_end_srv
+// @property C01 C15
+// @tier quick
+// @functions DnsIncoming::new, read_rr_records, read_u16
+// @bound header + exactly 11 bytes: an SRV RR header is the end of the datagram
+// @oracle never panics
+// @stubs fmt_format, utf8_model, clock(overlay)
+// @covers err
+c01_rr_at_end!(c01_rr_end_srv, 33);
+
+// @harness c01_rr_end_nsec
+// @property C01 C15
+// @tier quick
+// @functions DnsIncoming::new, read_rr_records, read_name, read_type_bitmap
+// @bound header + exactly 11 bytes: an NSEC RR header is the end of the datagram
+// @oracle never panics
+// @stubs fmt_format, utf8_model, clock(overlay)
+// @covers err
+c01_rr_at_end!(c01_rr_end_nsec, 47);
+
+// @harness c01_rr_end_a
+// @property C01 C15
+// @tier thorough
+// @functions DnsIncoming::new, read_rr_records, read_ipv4
+// @bound header + exactly 11 bytes: an A RR header is the end of the datagram
+// @oracle never panics
+// @stubs fmt_format, utf8_model, clock(overlay)
+// @covers err
+c01_rr_at_end!(c01_rr_end_a, 1);
+
+// @harness c01_rr_nsec
+// @property C01 C15
+// @tier thorough
+// @functions DnsIncoming::new, read_rr_records, read_name, read_type_bitmap, DnsNSec::new
+// @bound header + 16 bytes; owner = root, TYPE = NSEC (concrete); next-domain name + bitmap block in up to 5 RDATA bytes
+// @oracle never panics; Ok => one record, bitmap length 1..=32 and inside RDATA, cursor == 23 + RDLENGTH
+// @stubs fmt_format, utf8_model, clock(overlay)
+// @covers ok_record, err
+#[kani::proof]
+#[kani::unwind(5)]
+#[kani::stub(alloc::fmt::format, crate::verif_support::fmt_format)]
+#[kani::stub(core::str::from_utf8, crate::verif_support::utf8_model)]
+fn c01_rr_nsec() {
+    let mut body: [u8; 16] = kani::any();
+    if let Some((inc, _c, _t, rdlen, _)) = decode_one_rr(&mut body, 47, 0x8400, true) {
+        assert!(inc.answers.len() == 1);
+        let n = inc.answers[0].any().downcast_ref::<DnsNSec>().unwrap();
+        assert!(n.type_bitmap.len() >= 1 && n.type_bitmap.len() <= 32 && n.type_bitmap.len() + 3 <= rdlen.max(3) + 32);
+        kani::cover!(true, "ok_record");
+        core::mem::forget(inc);
+    }
+}
+
+macro_rules! c01_rr_unknown {
+    ($name:ident, $ty:expr) => {
+        #[kani::proof]
+        #[kani::unwind(2)]
+        #[kani::stub(alloc::fmt::format, crate::verif_support::fmt_format)]
+        #[kani::stub(core::str::from_utf8, crate::verif_support::utf8_model)]
+        fn $name() {
+            let mut body: [u8; 15] = kani::any();
+            if let Some((inc, _c, _t, _rdlen, _)) = decode_one_rr(&mut body, $ty, 0x8400, true) {
+                assert!(inc.answers.is_empty(), "record of an unsupported type was stored");
+                kani::cover!(true, "ok_skipped");
+                core::mem::forget(inc);
+            }
+        }
+    };
+}
+
+// @harness c01_rr_unknown_ns
+// @property C01 C15
+// @tier quick
+// @functions DnsIncoming::new, read_rr_records
+// @bound header + 15 bytes; owner = root, TYPE = 2 (NS, not supported); RDLENGTH and 4 RDATA bytes symbolic
+// @oracle never panics; Ok => no record stored, cursor == 23 + RDLENGTH <= len (RDATA skipped whole)
+// @stubs fmt_format, utf8_model, clock(overlay)
+// @covers ok_skipped, err
+c01_rr_unknown!(c01_rr_unknown_ns, 2);
+
+// @harness c01_rr_unknown_any
+// @property C01 C15
+// @tier quick
+// @functions DnsIncoming::new, read_rr_records
+// @bound header + 15 bytes; owner = root, TYPE = 255 (ANY: a known RRType without a record form); RDLENGTH and 4 RDATA bytes symbolic
+// @oracle never panics; Ok => no record stored, RDATA skipped whole
+// @stubs fmt_format, utf8_model, clock(overlay)
+// @covers ok_skipped, err
+c01_rr_unknown!(c01_rr_unknown_any, 255);
+
+// @harness c01_question
+// @property C01 C15
+// @tier thorough
+// @functions DnsIncoming::new, read_header, read_questions, read_name
+// @bound 12-byte header with QDCOUNT = 2 (flags 0, other counts 0) + 10 symbolic bytes
+// @oracle never panics; Ok => two questions, QTYPE/QCLASS of the first read from the 4 bytes after its name, cursor <= len
+// @stubs fmt_format, utf8_model
+// @covers ok_two, err
+#[kani::proof]
+#[kani::unwind(12)]
+#[kani::stub(alloc::fmt::format, crate::verif_support::fmt_format)]
+#[kani::stub(core::str::from_utf8, crate::verif_support::utf8_model)]
+fn c01_question() {
+    let body: [u8; 10] = kani::any();
+    let mut d = Vec::with_capacity(22);
+    d.extend_from_slice(&[0, 0, 0, 0, 0, 2, 0, 0, 0, 0, 0, 0]);
+    d.extend_from_slice(&body);
+    crate::verif_support::set_step_budget(14);
+    match DnsIncoming::new(d, InterfaceId::default()) {
+        Ok(inc) => {
+            assert!(inc.questions.len() == 2);
+            assert!(inc.offset <= 22 && inc.offset >= 12 + 10);
+            assert!(inc.answers.is_empty());
+            if body[0] == 0 {
+                let q = &inc.questions[0];
+                assert!(q.entry.ty as u16 == vs::be16(&body, 1));
+                assert!(q.entry.class == vs::be16(&body, 3) & 0x7FFF);
+            }
+            kani::cover!(true, "ok_two");
+            core::mem::forget(inc);
+        }
+        Err(e) => {
+            kani::cover!(true, "err");
+            core::mem::forget(e);
+        }
+    }
+}
+
+macro_rules! c01_header_short {
+    ($name:ident, $n:expr) => {
+        #[kani::proof]
+        #[kani::unwind(4)]
+        #[kani::stub(alloc::fmt::format, crate::verif_support::fmt_format)]
+        fn $name() {
+            let hdr: [u8; $n] = kani::any();
+            match DnsIncoming::new(hdr.to_vec(), InterfaceId::default()) {
+                Ok(inc) => {
+                    assert!(false, "a datagram shorter than a header decoded");
+                    core::mem::forget(inc);
+                }
+                Err(e) => {
+                    kani::cover!(true, "err_short");
+                    core::mem::forget(e);
+                }
+            }
+        }
+    };
+}
+
+// @harness c01_header_short_0
+// @property C01 C15
+// @tier quick
+// @functions DnsIncoming::new, read_header
+// @bound the empty datagram
+// @oracle Err, never a panic
+// @stubs fmt_format
+// @covers err_short
+c01_header_short!(c01_header_short_0, 0);
+
+// @harness c01_header_short_11
+// @property C01 C15
+// @tier quick
+// @functions DnsIncoming::new, read_header
+// @bound every datagram of exactly 11 symbolic bytes (one short of a header)
+// @oracle Err, never a panic
+// @stubs fmt_format
+// @covers err_short
+c01_header_short!(c01_header_short_11, 11);
+
+// @harness c01_header_only
+// @property C01 C15
+// @tier quick
+// @functions DnsIncoming::new, read_header
+// @bound 12-byte datagrams: id and flags symbolic, all four counts zero
+// @oracle Ok with id/flags from bytes 0..4 and empty sections
+// @stubs fmt_format
+// @covers ok_empty_message
+#[kani::proof]
+#[kani::unwind(4)]
+#[kani::stub(alloc::fmt::format, crate::verif_support::fmt_format)]
+fn c01_header_only() {
+    let a: [u8; 4] = kani::any();
+    let d = vec![a[0], a[1], a[2], a[3], 0, 0, 0, 0, 0, 0, 0, 0];
+    match DnsIncoming::new(d, InterfaceId::default()) {
+        Ok(inc) => {
+            assert!(inc.id == vs::be16(&a, 0) && inc.flags == vs::be16(&a, 2));
+            assert!(inc.questions.is_empty() && inc.answers.is_empty() && inc.authorities.is_empty() && inc.additional.is_empty());
+            assert!(inc.offset == 12);
+            kani::cover!(true, "ok_empty_message");
+            core::mem::forget(inc);
+        }
+        Err(e) => {
+            assert!(false, "a 12-byte header with zero counts must decode");
+            core::mem::forget(e);
+        }
+    }
+}
+
+// ---------------------------------------------------------------------------
+// C01 quick tier: exact-length typed record (cheap: no error path after the push) and the
+// low-level readers from an arbitrary parser state
+// ---------------------------------------------------------------------------
+
+macro_rules! c01_rr_a_exact {
+    ($name:ident, $flags:expr) => {
+        #[kani::proof]
+        #[kani::unwind(2)]
+        #[kani::stub(alloc::fmt::format, crate::verif_support::fmt_format)]
+        #[kani::stub(core::str::from_utf8, crate::verif_support::utf8_model)]
+        fn $name() {
+            let mut body: [u8; 15] = kani::any();
+            body[9] = 0;
+            body[10] = 4;
+            let r = decode_one_rr(&mut body, 1, $flags, false);
+            assert!(r.is_some(), "a well-formed A record must decode");
+            if let Some((inc, _c, ttl_wire, _rdlen, _)) = r {
+                assert!(inc.answers.len() == 1);
+                let a = inc.answers[0].any().downcast_ref::<DnsAddress>().unwrap();
+                match a.address {
+                    IpAddr::V4(v4) => assert!(u32::from(v4) == vs::be32(&body, 11), "address not from RDATA"),
+                    _ => assert!(false, "A decoded to a non-IPv4 address"),
+                }
+                // C11/C05: lifetime of the stored record follows the (adjusted) TTL
+                let rec = inc.answers[0].get_record();
+                assert!(rec.expires == rec.created + 1000 * rec.ttl as u64);
+                kani::cover!(ttl_wire == 0, "ttl0");
+                kani::cover!(ttl_wire == u32::MAX, "ttl_max");
+                core::mem::forget(inc);
+            }
+        }
+    };
+}
+
+// @harness c01_rr_a_exact_resp
+// @property C01 C11 C15 C05
+// @tier quick
+// @functions DnsIncoming::new, read_header, read_questions, read_rr_records, read_name, read_ipv4, DnsAddress::new, DnsRecord::new
+// @bound datagram = header (flags 0x8400 response, ANCOUNT 1) + root owner + TYPE A + symbolic CLASS, TTL (all u32), RDATA (all u32); RDLENGTH = 4 (concrete)
+// @oracle decodes to exactly one record: address/class/flush/TTL from their RFC 1035 positions; TTL 0 is stored as 1 (goodbye = one second); expires == created + 1000*ttl
+// @outside RDLENGTH mismatches and trailing bytes (thorough: c01_rr_a_resp)
+// @stubs fmt_format, utf8_model, clock(overlay)
+// @covers ttl0, ttl_max
+c01_rr_a_exact!(c01_rr_a_exact_resp, 0x8400);
+
+// @harness c01_rr_a_exact_query
+// @property C01 C11 C15
+// @tier quick
+// @functions DnsIncoming::new, read_rr_records, read_ipv4, DnsAddress::new, DnsRecord::new
+// @bound as c01_rr_a_exact_resp with header flags 0x0000 (query: known-answer section)
+// @oracle as c01_rr_a_exact_resp, but TTL 0 stays 0 in a query
+// @stubs fmt_format, utf8_model, clock(overlay)
+// @covers ttl0, ttl_max
+c01_rr_a_exact!(c01_rr_a_exact_query, 0x0000);
+
+// @harness c01_unit_char_string
+// @property C01 C15
+// @tier quick
+// @functions DnsIncoming::read_char_string, DnsIncoming::read_string
+// @bound buffer of exactly 4 symbolic bytes, cursor symbolic in 0..=4 (an arbitrary parser state, incl. the cursor at the very end)
+// @oracle Result, never a panic; Ok => cursor == start + 1 + length byte <= len
+// @stubs fmt_format, utf8_model
+// @covers ok, err
+// @lift rr:13
+#[kani::proof]
+#[kani::unwind(7)]
+#[kani::stub(alloc::fmt::format, crate::verif_support::fmt_format)]
+#[kani::stub(core::str::from_utf8, crate::verif_support::utf8_model)]
+fn c01_unit_char_string() {
+    let bytes: [u8; 4] = kani::any();
+    let off: usize = kani::any();
+    kani::assume(off <= 4);
+    crate::verif_support::set_step_budget(4);
+    let mut inc = mk_incoming(bytes.to_vec(), off, 0);
+    match inc.read_char_string() {
+        Ok(s) => {
+            assert!(inc.offset == off + 1 + bytes[off] as usize && inc.offset <= 4);
+            assert!(s.len() == bytes[off] as usize);
+            kani::cover!(true, "ok");
+            core::mem::forget(s);
+        }
+        Err(e) => {
+            kani::cover!(true, "err");
+            core::mem::forget(e);
+        }
+    }
+    core::mem::forget(inc);
+}
+
+// @harness c01_unit_u16_ipv4
+// @property C01 C15
+// @tier quick
+// @functions DnsIncoming::read_u16, DnsIncoming::read_ipv4
+// @bound buffer of exactly 5 symbolic bytes, cursor symbolic in 0..=5
+// @oracle Result, never a panic; Ok => value == the big-endian bytes at the cursor, cursor advanced by 2 / 4 and <= len
+// @stubs fmt_format
+// @covers ok_u16, err_u16, ok_v4, err_v4
+#[kani::proof]
+#[kani::unwind(7)]
+#[kani::stub(alloc::fmt::format, crate::verif_support::fmt_format)]
+fn c01_unit_u16_ipv4() {
+    let bytes: [u8; 5] = kani::any();
+    let off: usize = kani::any();
+    kani::assume(off <= 5);
+    let mut inc = mk_incoming(bytes.to_vec(), off, 0);
+    if kani::any() {
+        match inc.read_u16() {
+            Ok(v) => {
+                assert!(off + 2 <= 5 && inc.offset == off + 2);
+                assert!(v == vs::be16(&bytes, off));
+                kani::cover!(true, "ok_u16");
+            }
+            Err(e) => {
+                assert!(off + 2 > 5, "two bytes were available");
+                kani::cover!(true, "err_u16");
+                core::mem::forget(e);
+            }
+        }
+    } else {
+        match inc.read_ipv4() {
+            Ok(v) => {
+                assert!(off + 4 <= 5 && inc.offset == off + 4);
+                assert!(u32::from(v) == vs::be32(&bytes, off));
+                kani::cover!(true, "ok_v4");
+            }
+            Err(e) => {
+                assert!(off + 4 > 5, "four bytes were available");
+                kani::cover!(true, "err_v4");
+                core::mem::forget(e);
+            }
+        }
+    }
+    core::mem::forget(inc);
+}
+
+// @harness c01_unit_vec
+// @property C01 C15
+// @tier quick
+// @functions DnsIncoming::read_vec
+// @bound buffer of exactly 4 symbolic bytes, cursor symbolic in 0..=4, requested length symbolic in 0..=6
+// @oracle Result, never a panic; Ok <=> cursor + length <= len; the returned bytes are the datagram bytes at the cursor
+// @stubs fmt_format
+// @covers ok_empty, ok_full, err
+#[kani::proof]
+#[kani::unwind(8)]
+#[kani::stub(alloc::fmt::format, crate::verif_support::fmt_format)]
+fn c01_unit_vec() {
+    let bytes: [u8; 4] = kani::any();
+    let off: usize = kani::any();
+    let len: usize = kani::any();
+    kani::assume(off <= 4 && len <= 6);
+    let mut inc = mk_incoming(bytes.to_vec(), off, 0);
+    match inc.read_vec(len) {
+        Ok(v) => {
+            assert!(off + len <= 4 && inc.offset == off + len && v.len() == len);
+            let mut i = 0;
+            while i < 4 {
+                if i < len {
+                    assert!(v[i] == bytes[off + i]);
+                }
+                i += 1;
+            }
+            kani::cover!(len == 0, "ok_empty");
+            kani::cover!(len == 4, "ok_full");
+            core::mem::forget(v);
+        }
+        Err(e) => {
+            assert!(off + len > 4);
+            kani::cover!(true, "err");
+            core::mem::forget(e);
+        }
+    }
+    core::mem::forget(inc);
+}
+
+// @harness c01_unit_type_bitmap
+// @property C01 C15
+// @tier quick
+// @functions DnsIncoming::read_type_bitmap
+// @bound buffer of exactly 5 symbolic bytes, cursor symbolic in 0..=5
+// @oracle Result, never a panic; Ok => block number 0, length 1..=32, bitmap bytes from the datagram, cursor == start + 2 + length <= len
+// @stubs fmt_format
+// @covers ok, err
+#[kani::proof]
+#[kani::unwind(8)]
+#[kani::stub(alloc::fmt::format, crate::verif_support::fmt_format)]
+fn c01_unit_type_bitmap() {
+    let bytes: [u8; 5] = kani::any();
+    let off: usize = kani::any();
+    kani::assume(off <= 5);
+    let mut inc = mk_incoming(bytes.to_vec(), off, 0);
+    match inc.read_type_bitmap() {
+        Ok(v) => {
+            assert!(bytes[off] == 0);
+            let l = bytes[off + 1] as usize;
+            assert!(l >= 1 && l <= 32 && v.len() == l && inc.offset == off + 2 + l && inc.offset <= 5);
+            assert!(v[0] == bytes[off + 2]);
+            kani::cover!(true, "ok");
+            core::mem::forget(v);
+        }
+        Err(e) => {
+            kani::cover!(true, "err");
+            core::mem::forget(e);
+        }
+    }
+    core::mem::forget(inc);
+}
+
+// @harness c01_unit_ipv6
+// @property C01 C15
+// @tier quick
+// @functions DnsIncoming::read_ipv6
+// @bound buffer of exactly 17 symbolic bytes, cursor symbolic in 0..=17
+// @oracle Result, never a panic; Ok <=> 16 bytes available; cursor advanced by 16
+// @stubs fmt_format
+// @covers ok, err
+#[kani::proof]
+#[kani::unwind(19)]
+#[kani::stub(alloc::fmt::format, crate::verif_support::fmt_format)]
+fn c01_unit_ipv6() {
+    let bytes: [u8; 17] = kani::any();
+    let off: usize = kani::any();
+    kani::assume(off <= 17);
+    let mut inc = mk_incoming(bytes.to_vec(), off, 0);
+    match inc.read_ipv6() {
+        Ok(v) => {
+            assert!(off + 16 <= 17 && inc.offset == off + 16);
+            assert!(v.octets()[0] == bytes[off] && v.octets()[15] == bytes[off + 15]);
+            kani::cover!(true, "ok");
+        }
+        Err(e) => {
+            assert!(off + 16 > 17);
+            kani::cover!(true, "err");
+            core::mem::forget(e);
+        }
+    }
+    core::mem::forget(inc);
+}
